@@ -11,13 +11,16 @@ EXPLANATION = (
 
 OPEN = "rawdb::Database::open_with_min_len"
 ROPEN = "rawdb::regions::Regions::open"
-TRY_LOCK = M(r"std::fs::File::try_lock")
+TRY_LOCK = M(r"std::fs::File::try_lock", reach="must")
 OO_OPEN = M(r"std::fs::OpenOptions::open")
+
+import props.anchors as anchors
 
 
 def run(ctx, chk):
     O, P = ctx.O, ctx.P
     ob = O.body(OPEN)
+    anchors.check(ctx, chk, ['try_lock_regions', 'sync_bg_joins'])
     rb = O.body(ROPEN)
     O.need_sites(ob, TRY_LOCK, 1)
     O.need_sites(rb, TRY_LOCK, 1)
@@ -34,7 +37,7 @@ def run(ctx, chk):
                        key="B18.1|%s|%s" % (fn, m.label),
                        msg="the advisory lock must be held before the file is resized, synced, mapped or read")
         # the lock is taken on the freshly opened file: try_lock's receiver derives from OpenOptions::open
-        for b in O.sites(body, TRY_LOCK):
+        for b in O.sites(body, M(r"std::fs::File::try_lock")):
             sl = O.slice_back(body, body.blocks[b]["term"]["args"][0])
             chk.oblige("B18.1 flows_to(%s: OpenOptions::open -> File::try_lock receiver)" % fn,
                        "std::fs::OpenOptions::open" in sl["calls"], key="B18.1|flows|%s|try_lock" % fn,
